@@ -479,7 +479,13 @@ def execute(prop, plan, tier, seed, expinfo, t_start, exp=None):
         undecided.append('kani part skipped (VEKVERIF_DEV_SKIP_KANI)')
     elif plan.kani:
         import kani_driver
-        kr = kani_driver.run(plan.kani, workdir, tier)
+        kr = []
+        crates = []
+        for sp in plan.kani:
+            if sp.get('crate') not in crates:
+                crates.append(sp.get('crate'))
+        for cr in crates:      # one cargo-kani invocation per harness crate
+            kr += kani_driver.run([sp for sp in plan.kani if sp.get('crate') == cr], workdir, tier)
         for h in kr:
             obligations += 1
             solver_time['kani'] = solver_time.get('kani', 0.0) + h['time']
